@@ -34,6 +34,8 @@ type FailCase struct {
 	ProjDir string `json:"proj_dir,omitempty"`
 	// Invoke: how spok is pointed at the project (sandbox.Box.Invoke)
 	Invoke  string   `json:"invoke,omitempty"`
+	// Outputs: "files" = standard output and error are regular files (sandbox.Box.FileOutputs)
+	Outputs string `json:"outputs,omitempty"`
 	Tasks   []FTask  `json:"tasks"`
 	Request []string `json:"request"`
 	Flags   []string `json:"flags"`
@@ -60,6 +62,7 @@ func genFail(t *rapid.T) FailCase {
 	c := genFailBody(t)
 	c.ProjDir = genProjDir(t)
 	c.Invoke = genInvoke(t)
+	c.Outputs = genOutputs(t)
 	if !c.Prime && rapid.IntRange(0, 2).Draw(t, "stale_cache") == 0 {
 		c.StaleCache = true
 	}
@@ -202,6 +205,7 @@ func execFail(s *ev.Shard, b *sandbox.Box, c FailCase) *rp.Fail {
 	if err := b.ResetFor(c.ProjDir, c.Invoke); err != nil {
 		return &rp.Fail{Sig: "harness", Msg: err.Error()}
 	}
+	b.FileOutputs = c.Outputs == "files"
 	src := c.source()
 	if err := writeProject(b, b.Proj, map[string]string{"spokfile": src, "in.txt": "input", "gone.txt": "soon gone"}); err != nil {
 		return &rp.Fail{Sig: "harness", Msg: err.Error()}
